@@ -475,11 +475,13 @@ type reflected struct {
 	obj     *schema_j5pb.Object
 	enum    *schema_j5pb.Enum // the enum the sentinel property zz refers to
 	isOneof bool
+	md      protoreflect.MessageDescriptor
 	err     error
 	panic   any
 }
 
 func reflectObject(md protoreflect.MessageDescriptor) (r reflected) {
+	r.md = md
 	defer func() {
 		if p := recover(); p != nil {
 			r.panic = p
@@ -723,7 +725,17 @@ func runC04(cfg *vh.Config) error {
 			}
 			refl = "(Ok [" + strings.Join(terms, ";") + "])"
 		}
-		cf.Terms = append(cf.Terms, fmt.Sprintf("C04Case %s [%s] [%s] %s", env.Coq(), strings.Join(dterms, ";"), strings.Join(outs, ";"), refl))
+		// the direct oracle's verdict per property (declared = reflected), compared in
+		// Coq with rt_ok: the exactness theorem says they coincide
+		var same []string
+		for i, p := range props {
+			eq := false
+			if i < len(reflProps) {
+				eq = proto.Equal(normProp(env, p.P).toProto(env, int32(i+1)), reflProps[i])
+			}
+			same = append(same, vh.BoolTerm(eq))
+		}
+		cf.Terms = append(cf.Terms, fmt.Sprintf("C04Case %s [%s] [%s] %s [%s]", env.Coq(), strings.Join(dterms, ";"), strings.Join(outs, ";"), refl, strings.Join(same, ";")))
 		res.Cases = append(res.Cases, vh.CaseRec{Case: caseNo, Stream: "object", Input: input, Impl: map[string]any{"reflected": protoString(mem.obj), "error": fmt.Sprint(mem.err), "panic": fmt.Sprint(mem.panic)}})
 		res.Sample(map[string]any{"j5s": src, "reflected": protoString(mem.obj)}, 3)
 
@@ -766,6 +778,25 @@ func runC04(cfg *vh.Config) error {
 				}
 				if txt.enum != nil && !proto.Equal(txt.enum, mem.enum) {
 					res.Fail(vh.Failure{Case: caseNo, Stream: "text", Sig: "C04 enum schema reflected from the printed .proto text differs from the in-memory one", Clause: "the same schema is obtained from the generated .proto text", Input: map[string]any{"j5s": env.J5S(), "proto": text}, Got: protoString(txt.enum), Want: protoString(mem.enum)})
+				}
+			}
+			// ---- the text clause: the reader's view of every field after print + parse
+			if txt.md != nil && mem.obj != nil && txt.obj != nil && txt.md.Fields().Len() == md.Fields().Len() {
+				var touts []string
+				for i := range props {
+					touts = append(touts, foutTerm(txt.md.Fields().Get(i)))
+				}
+				sameSchema := true
+				for i := range props {
+					if i >= len(mem.obj.Properties) || i >= len(txt.obj.Properties) || !proto.Equal(mem.obj.Properties[i], txt.obj.Properties[i]) {
+						sameSchema = false
+					}
+				}
+				cf.Terms = append(cf.Terms, fmt.Sprintf("C04Text [%s] [%s] %s", strings.Join(outs, ";"), strings.Join(touts, ";"), vh.BoolTerm(sameSchema)))
+				res.Cases = append(res.Cases, vh.CaseRec{Case: caseNo, Stream: "text", Input: input, Impl: map[string]any{"same_schema": sameSchema}})
+				res.Count("text-view")
+				if strings.Join(outs, ";") == strings.Join(touts, ";") {
+					res.Count("text-view-identical")
 				}
 			}
 			cf.Terms = append(cf.Terms, fmt.Sprintf("C04Enum %s %s %s", env.DeclCoq(), obsEnum, reflEnum))
@@ -893,10 +924,10 @@ func asymmetryClass(p genDecl) (string, []string) {
 		return "C04 string format: StringField.format is not written to the descriptor and does not read back", []string{item + ".string.format"}
 	case t.Kind == TAny && (t.AnyOD || len(t.AnyT) > 0) && p.P.PK != PSingle:
 		return "C04 array of any with onlyDefined / types: (j5.ext.v1.field).any is replaced by the array annotation", []string{item + ".any.onlyDefined", item + ".any.types"}
-	case t.Kind == TKey && t.KF == KCustom:
-		return "C04 key:custom: the pattern is written as (buf.validate.field).string.pattern and not read back as a key format", []string{item + ".key", item + ".string"}
-	case t.Kind == TKey && t.KF == KInformal:
-		return "C04 key:informal: reads back as a key without format (or as a string inside an array)", []string{item + ".key", item + ".string"}
+	case t.Kind == TKey && (t.KF == KCustom || t.KF == KInformal) && p.P.PK != PSingle:
+		return "C04 array of key:custom / key:informal: the format lives in (j5.ext.v1.field).key, which the array annotation replaces", []string{item + ".key", item + ".string"}
+	case t.Kind == TKey && t.KF == KCustom && t.List != nil:
+		return "C04 key:custom with list rules: written as a unique_string foreign key, reads back as key:informal", []string{item + ".key.format"}
 	case t.Kind == TKey && t.KF == KNone && t.List != nil:
 		return "C04 key without format but with list rules: reads back as key:informal", []string{item + ".key.format"}
 	case t.Kind == TKey && t.KF == KNone && p.P.PK != PSingle && t.Entity == nil:
